@@ -82,6 +82,26 @@ def run_single(ctx, rng, N):
         if name in ("EOF", "ComplexEOF"):
             # the normalised variant divides by the FITTED norms: still a per-sample map
             check_transform(ctx, "C05:%s:normalized" % name, "%s/%s/normalized" % (name, mode), lambda d: m.transform(d, normalized=True), new, "time", replay)
+        # repeated sample coordinates (two ensemble members on one time axis, concatenated), one sample of the first member entirely missing:
+        # every valid sample comes back under its own label, in order; only the missing one may be omitted or NaN
+        if name in ("EOF", "ComplexEOF") and n_new >= 3:
+            import xarray as xr
+            ctx.case(("c05rep", name, n, p, n_new, i), nontrivial=True, tag="%s/repeated-labels-with-a-missing-sample" % name)
+            A, B = new.copy(), new_data(rng, X, n_new, mode).assign_coords(time=new.time.values)
+            jm = int(rng.integers(0, n_new))
+            A.values[jm] = np.nan
+            both = xr.concat([A, B], dim="time")
+            try:
+                tb = m.transform(both)
+                ta, tbb = m.transform(A), m.transform(B)
+                want_labels = [t for q, t in enumerate(A.time.values.tolist()) if q != jm] + B.time.values.tolist()
+                got = tb.dropna("time", how="all")
+                ref = xr.concat([ta.dropna("time", how="all"), tbb], dim="time")
+                if list(got.time.values) != want_labels or not Z.same(got.transpose(*ref.dims).values, ref.values, 1e-8):
+                    ctx.violation("C05:%s:repeated-labels" % name, "%s: new data with repeated sample labels and one entirely missing sample: the scores carry the labels %r, "
+                                  "the valid samples are %r" % (name, list(got.time.values)[:12], want_labels[:12]), dict(replay, repeated=True, missing=jm))
+            except Exception as e:
+                ctx.violation("C05:%s:repeated-labels:error:%s" % (name, C.errkind(e)), "%s: transform of data with repeated sample labels raised %r" % (name, e), replay)
         # subset of the training samples
         idx = sorted(set(rng.integers(0, n, size=int(rng.integers(1, n))).tolist()))
         sub = X.isel(time=idx)
